@@ -114,7 +114,7 @@ static void emitOp(const std::vector<int> &o, World *w, bool processed, const ch
 
 static int opLen(int t)
 {
-    static const int n[] = {0, 5, 8, 3, 7, 6, 3, 5, 1, 1, 1, 3, 1, 0, 1, 5, 11, 2};
+    static const int n[] = {0, 5, 8, 3, 7, 6, 3, 5, 1, 1, 1, 3, 1, 0, 1, 5, 11, 2, 1};
     return n[t];
 }
 
@@ -152,6 +152,10 @@ static void runScenario(int mode, int opts, const std::vector<std::vector<int> >
             case 10: w.router->deleteJunction(w.juncs.at(o[1])); w.juncs.erase(o[1]); processed = !w.txn; break;
             case 11: w.router->moveJunction(w.juncs.at(o[1]), o[2], o[3]); processed = !w.txn; break;
             case 12: w.router->hyperedgeRerouter()->registerHyperedgeForRerouting(w.juncs.at(o[1])); break;
+            case 18:        // 18 opts: the two hyperedge improvement options are set anew (bits 2 and 4 as in the scenario's opts)
+                w.router->setRoutingOption(improveHyperedgeRoutesMovingJunctions, (o[1] & 2) != 0);
+                w.router->setRoutingOption(improveHyperedgeRoutesMovingAddingAndDeletingJunctions, (o[1] & 4) != 0);
+                processed = !w.txn; break;
             case 17: {      // 17 dx dy: every junction the router currently has (also those hyperedge rerouting created) is moved by (dx, dy)
                 std::vector<JunctionRef *> js;
                 // (not those the last rerouting/improvement reported as deleted: they stay in the router until the next transaction
